@@ -664,35 +664,73 @@ theorem shared_lookup_breaks_history_independence :
 example : runHistory ownLookup ⟨[]⟩ [histA, histB, histB] = [freshOutcome histA, freshOutcome histB, freshOutcome histB] :=
   history_independent_all _ _
 
-/-- the map-typed variables of `automaticHTTPSPhase1` (autohttps.go) -/
-def phase1Maps : List String :=
-  ["app.Servers", "serverDomainSet", "uniqueDomainsForCerts", "redirDomains", "domainsByAddr", "redirServers",
-   "redirServerAddrs"]
+/-- a row of the regenerated fact `Gen.autoHTTPSRanges`: (kind, origin, effects of the loop body, callees in it) —
+    every iteration of a map in code reachable from `automaticHTTPSPhase1` (helpers and closures of package
+    caddyhttp included), recognised by go/types and by data flow through parameters, not by variable names -/
+abbrev RangeRow := String × String × List String × List String
 
-/-- the maps whose iteration order the model exposes as an `Orders` field and that the function
-    ranges over -/
-def orderedMaps : List String := ["uniqueDomainsForCerts", "redirDomains", "domainsByAddr", "redirServers"]
+/-- the maps whose iteration order the model exposes as an `Orders` field (`Orders.over` sorts their keys),
+    by origin and type: the servers, the certificate names, the redirect domains, the names by address, the
+    redirect servers by address -/
+def orderedMaps : List String :=
+  ["field App.Servers : map[string]*Server", "var : map[string]struct{}", "var : map[string][]caddy.NetworkAddress",
+   "var : map[string][]string", "var : map[string][]Route"]
 
-/-- what `deterministic` assumes about the source, as a predicate over the regenerated list of
-    `range` statements (robust against added loops over slices): no map of the function is
-    ranged directly except `serverDomainSet` (whose order the model does not expose: set
-    inserts and per-key appends only), and each ordered map is ranged through
-    `slices.Sorted(maps.Keys(m))` -/
-def sortedRangesOK (ranges : List (String × String)) : Bool :=
-  (ranges.all fun r => !(r.1 == "plain" && phase1Maps.contains r.2) || r.2 == "serverDomainSet") &&
-  (orderedMaps.all fun m => ranges.contains ("sortedkeys", m)) &&
-  (ranges.all fun r => r.1 == "plain" || r.1 == "sortedkeys")
+/-- callees that read only (certmagic / strings / slices predicates, the loaded-certificate lookup, the
+    configured HTTPS port) or log -/
+def readOnlyCalls : List String :=
+  ["(*caddytls.TLS).HasCertificateForSubject", "(*zap.Logger).Info", "(*zap.Logger).Warn", "(*zap.Logger).Debug",
+   "certmagic.SubjectQualifiesForCert", "slices.Contains", "strings.Contains", "strings.Count", "strings.Trim",
+   "strings.ToLower", "zap.String", "(*caddyhttp.App).httpsPort"]
 
-/-- **the source ranges over sorted keys** (regenerated from /repo on every run by
-    tools/extract: `Gen.autoHTTPSRanges`): the premise under which `Orders.over` with a complete
+/-- a loop body whose result cannot depend on the order of the keys: per-key writes into a map (`keyed`:
+    set inserts, per-key appends) and the collection of the keys into a slice whose only other use is as the
+    argument of `TLS.RegisterServerNames` (which inserts every element into a set), calling read-only functions -/
+def orderFree (r : RangeRow) : Bool :=
+  (r.2.2.1.all fun e => e == "keyed" || e == "append>arg:(*caddytls.TLS).RegisterServerNames") &&
+  r.2.2.2.all readOnlyCalls.contains
+
+/-- the one direct map iteration left whose body is not order-free: `MatcherSets.FromInterface` (routes.go,
+    reached through `ProvisionMatchers`) appends the decoded matchers of ONE matcher set in the random order of
+    the module map. The matchers of a set are AND-ed and phase 1 reads every `*MatchHost` of a set whatever
+    its position (model: a matcher set = its host names), so only the matcher index inside an error text
+    (not compared) depends on it. Pinned literally: a second such loop breaks the theorem. -/
+def matcherSetRow : RangeRow := ("map", "var : map[string]any", ["append>use", "return"], ["fmt.Errorf"])
+
+/-- what `deterministic` assumes about the source, as a predicate over the regenerated rows: every iteration
+    of a map reachable from phase 1 goes through `slices.Sorted(maps.Keys(m))`, or is a direct range with an
+    order-free body (or the matcher-set row); no bare `maps.Keys/Values/All` iterator and no range over another
+    iterator function; and every map the model gives an order to is ranged through sorted keys (the set-typed
+    one twice: certificate names and redirect server addresses) -/
+def sortedRangesOK (rows : List RangeRow) : Bool :=
+  (rows.all fun r => r.1 == "sortedkeys" || (r.1 == "map" && (orderFree r || r == matcherSetRow))) &&
+  (orderedMaps.all fun m => rows.contains ("sortedkeys", m, [], [])) &&
+  decide (2 ≤ rows.count ("sortedkeys", "var : map[string]struct{}", [], [])) &&
+  decide (rows.count matcherSetRow ≤ 1)
+
+/-- **the source iterates its maps over sorted keys** (regenerated from /repo on every run by
+    tools/extract/c11ranges.go: `Gen.autoHTTPSRanges`): the premise under which `Orders.over` with a complete
     `κ` — and therefore `deterministic` — is the model of the code.  Reverting the repair
-    "automatic HTTPS phase 1 iterates its maps in sorted key order" breaks this theorem. -/
+    "automatic HTTPS phase 1 iterates its maps in sorted key order" breaks this theorem; moving loops of
+    phase 1 into helpers of the package or renaming locals does not (harmless/C11-refactor). -/
 theorem sorted_ranges_matches_source : sortedRangesOK Gen.autoHTTPSRanges = true := by decide
 
-/-- the predicate rejects the ranges of the code before the repair -/
-example : sortedRangesOK [("plain", "app.Servers"), ("plain", "serverDomainSet"), ("plain", "uniqueDomainsForCerts"),
-    ("plain", "redirDomains"), ("plain", "domainsByAddr"), ("plain", "redirServers"), ("plain", "app.Servers")] = false := by
-  decide
+/-- the predicate rejects the code before the repair (the certificate names ranged directly: the body fills the
+    two name slices handed to `createAutomationPolicies`), and a bare `maps.Keys` iterator -/
+example : sortedRangesOK [("sortedkeys", "field App.Servers : map[string]*Server", [], []),
+    ("map", "var : map[string]struct{}", ["append>arg:(*caddyhttp.App).createAutomationPolicies", "assign", "continue-label", "keyed", "return"],
+      ["(*caddytls.AutomationPolicy).Subjects", "certmagic.SubjectIsIP"]),
+    ("sortedkeys", "var : map[string][]caddy.NetworkAddress", [], []), ("sortedkeys", "var : map[string][]string", [], []),
+    ("sortedkeys", "var : map[string][]Route", [], []), ("sortedkeys", "var : map[string]struct{}", [], []),
+    ("sortedkeys", "var : map[string]struct{}", [], [])] = false := by decide
+
+example : sortedRangesOK (("mapseq", "var : map[string][]string", ["keyed"], []) :: Gen.autoHTTPSRanges) = false := by decide
+
+/-- … and a loop over a set that calls something not known to be read-only -/
+example : orderFree ("map", "var : map[string]struct{}", ["keyed"], ["(*caddytls.TLS).AddAutomationPolicy"]) = false := by decide
+
+/-- the predicate does not depend on where the loops stand (harmless/C11-refactor moves two of them into helpers) -/
+example : sortedRangesOK Gen.autoHTTPSRanges.reverse = true := by decide
 
 example : Complete cfgShadow κShadow := κShadow_complete
 
